@@ -127,6 +127,17 @@ func loadEngine(repo string, contractDir string, prop ...string) (*Engine, error
 					old.Raw[k] = append(old.Raw[k], v...)
 				}
 				for k, v := range c.Loops {
+					if o := old.Loops[k]; o != nil {
+						// clauses of several blocks (e.g. tagged for different properties) add up
+						o.Invariants = append(o.Invariants, v.Invariants...)
+						o.Modifies = append(o.Modifies, v.Modifies...)
+						o.Decreases = append(o.Decreases, v.Decreases...)
+						o.Reaches = append(o.Reaches, v.Reaches...)
+						if v.Complete {
+							o.Complete, o.CompleteTag = true, v.CompleteTag
+						}
+						continue
+					}
 					old.Loops[k] = v
 				}
 				continue
